@@ -218,7 +218,7 @@ _SCN_STUBS = ["strcasecmp/strncasecmp/strstr/strcasestr: reference implementatio
 _scn = dict(units=_PROTO_UNITS, model=["model/cjson_model.c", "model/alloc_stub.c", "model/strfn_ref.c"], include=["model/alloc_macros.h"],
             unit_defines={"src/peer.c": ["log_peer_err=real_log_peer_err", "log_peer_info=real_log_peer_info"]},
             unwind=6, unwindset={"find_closer_entry_route_table.0": 1, "find_closer_entry_route_table.1": 1,
-                                 "find_closer_entry_element_table.0": 1, "find_closer_entry_element_table.1": 1, "create_matcher.0": 8, "strcasecmp.0": 8, "strncasecmp.0": 8, "v_prefix.0": 8, "strstr.0": 8, "strcasestr.0": 8, "hash_func_route_table_string.0": 20, "hash_func_element_table_string.0": 8, "strlen.0": 74, "dupstr.0": 74, "ci_eq.0": 24, "strcmp.0": 24, "strncmp.0": 24, "strncpy.0": 74, "cpystr.0": 22},
+                                 "find_closer_entry_element_table.0": 1, "find_closer_entry_element_table.1": 1, "create_matcher.0": 8, "strcasecmp.0": 24, "strncasecmp.0": 24, "v_prefix.0": 8, "strstr.0": 8, "strcasestr.0": 8, "hash_func_route_table_string.0": 20, "hash_func_element_table_string.0": 8, "strlen.0": 74, "dupstr.0": 74, "ci_eq.0": 24, "strcmp.0": 24, "strncmp.0": 24, "strncpy.0": 74, "cpystr.0": 22},
             flags=["--max-field-sensitivity-array-size", "256"],
             stubs=_SCN_STUBS, config={"CONFIG_ELEMENT_TABLE_ORDER": 2, "CONFIG_ROUTING_TABLE_ORDER": 2, "CONFIG_INITIAL_FETCH_TABLE_SIZE": 2},
             timeout={"quick": 900, "thorough": 3600})
@@ -519,7 +519,7 @@ _scn_auth = dict(_scn, harness="harness/scn_auth.c", flags=_scn["flags"] + ["--n
                  unwindset=dict(_scn["unwindset"], **{"verif_crypt.0": 14, "verif_write.0": 9, "maybe_crash.0": 9, "clear_password.0": 14,
                                                       "get_groups.0": 4, "get_groups.1": 4, "is_in_groups.0": 4, "add_groups.0": 4, "fill_salt.0": 18,
                                                       "get_salt_from_passwd.0": 6, "verif_router_snprintf.0": 10, "verif_router_snprintf.1": 5, "strcat.0": 24, "strchr.0": 24, "write_user_data.0": 6,
-                                                      "harness_crash_atomic.0": 4}),
+                                                      "harness_crash_atomic.0": 4, "verif_ftruncate.0": 9, "cJSON_GetObjectItem.0": 9}),
                  stubs=_SCN_STUBS + ["crypt: injective model crypt(pw, salt) = \"H\" ++ pw", "ftruncate/lseek/write: 8-byte file model with symbolic error / short-write outcomes and a symbolic crash point",
                                      "cJSON_Print of the database: returns the fixed new content \"NEW\"", "cjet_get_random_bytes: fixed bytes",
                                      "credential database installed directly (load_passwd_data's open/mmap/parse are not modelled)"])
@@ -690,14 +690,16 @@ O(id="C12.upgrade_rules", props=["C12", "C13"], entry="harness_upgrade_rules", r
   assumes=["a header-callback error stops the HTTP parser (headers-complete is not reached)"], bounds="header texts from a closed vocabulary", **_wu)
 O(id="C12.base64", props=["C12"], entry="harness_b64", unwind=22, unwindset={"b64_encode_buffer.0": 9, "b64_encode_buffer.1": 9},
   functions=["b64_encode_buffer"], symbolic="20 input bytes, observed output group", assumes=[], bounds="20-byte input (the SHA-1 digest size)", **_wu)
-for _i, (_lvl, _offer) in enumerate(((2, "permessage-deflate"), (2, "permessage-deflate; client_max_window_bits"), (1, "permessage-deflate; server_max_window_bits=10; client_no_context_takeover"),
-                                     (3, "permessage-deflate; client_max_window_bits=9; server_no_context_takeover"), (2, "permessage-deflate; bogus_parameter"),
-                                     (2, "x-webkit-deflate-frame, permessage-deflate; client_max_window_bits=15"))):
-    O(id="C19.negotiation_%d" % _i, props=["C19", "C06"], entry="harness_negotiation", unwind=12, tier="quick" if _i in (1, 4) else "thorough",
+_NEG = ((2, "permessage-deflate", 0, 0), (2, "permessage-deflate; client_max_window_bits", 0, 0), (1, "permessage-deflate; server_max_window_bits=10; client_no_context_takeover", 0, 10),
+        (3, "permessage-deflate; client_max_window_bits=9; server_no_context_takeover", 9, 0), (2, "permessage-deflate; bogus_parameter", 0, 0),
+        (2, "x-webkit-deflate-frame, permessage-deflate; client_max_window_bits=15", 15, 0),
+        (2, "permessage-deflate; client_max_window_bits=8", 8, 0), (3, "permessage-deflate; client_max_window_bits=12", 12, 0), (2, "permessage-deflate; server_max_window_bits=9", 0, 9))
+for _i, (_lvl, _offer, _cb, _sb) in enumerate(_NEG):
+    O(id="C19.negotiation_%d" % _i, props=["C19", "C06"], entry="harness_negotiation", unwind=12, tier="quick" if _i in (1, 4, 6, 7, 8) else "thorough",
       timeout={"quick": 600, "thorough": 1800},
       unwindset={"strlen.0": 130, "has.0": 130, "strncmp.0": 30, "memcmp.0": 30, "fill_requested_extension.0": 90, "fill_requested_extension.1": 90, "fill_requested_extension.2": 90,
-                 "check_websocket_extensions.0": 90, "check_websocket_extensions.1": 90, "memcpy.0": 30},
-      defines=["NEG_LEVEL=%d" % _lvl, 'NEG_OFFER="%s"' % _offer],
+                 "check_websocket_extensions.0": 90, "check_websocket_extensions.1": 90, "memcpy.0": 30, "harness_negotiation.0": 30},
+      defines=["NEG_LEVEL=%d" % _lvl, 'NEG_OFFER="%s"' % _offer, "NEG_CLIENT_BITS=%d" % _cb, "NEG_SERVER_BITS=%d" % _sb],
       functions=["check_websocket_extensions", "fill_requested_extension", "write_to_response", "alloc_compression"],
       symbolic="(concrete offer per obligation: '%s', compression level %d)" % (_offer, _lvl), assumes=["realloc succeeds"], bounds="one extension offer", **_wu)
 
@@ -827,3 +829,17 @@ O(id="C05.peer_leaves_with_everything", props=["C05", "C03", "C01", "C07", "C11"
   functions=_RF + ["free_peer_resources", "remove_routing_info_from_peer", "remove_peer_from_routes", "remove_all_fetchers_from_peer", "remove_all_elements_from_peer", "notify_fetchers"],
   symbolic="set value, reply payload / new value", assumes=["set-up requests succeed and are routed"],
   bounds="4 peers: P owns 's' (B subscribed), P holds a fetch, P -> O set in flight, A -> P set in flight; then P's connection ends", **_scn_route)
+
+# look-alike option keys: a key that is not exactly "caseInsensitive" is a matcher name (and an unknown one)
+for _r, _nm in ((16, "option_name_prefix_alone"), (17, "option_name_prefix"), (18, "option_name_other_case"), (19, "option_name_lower_case_first")):
+    for _via in (0, 1):
+        O(id="C16.%srule_%s_a" % ("get_" if _via else "", _nm), props=["C16", "C06", "C02"], entry="harness_rule", reach=["refused"],
+          defines=["RULE=%d" % _r, "OPCHAR='a'"] + (["VIA_GET=1"] if _via else []),
+          functions=["add_fetch_to_peer", "get_elements", "create_fetch", "add_matchers", "create_matcher", "get_fetch_id", "state_matches", "free_fetch"],
+          symbolic="state value", assumes=["set-up add of 'ab' succeeds"],
+          bounds="skeleton: A add 'ab'; B %s with rule shape '%s'; struct-hack arrays: --no-bounds-check (object bounds still checked)" % ("get" if _via else "fetch", _nm), **_scn_rule)
+
+for _c, _nm in ((7, "name_extends_requesters"), (8, "name_is_prefix_of_requesters")):
+    O(id="C20.passwd_account_whose_" + _nm, props=["C20", "C08", "C02"], entry="harness_passwd", defines=["PWCASE=%d" % _c], reach=["refused"], functions=_AF,
+      symbolic="(concrete requester/target)", assumes=["the requester's own authentication succeeds"],
+      bounds="database of 6 users; users 'u1' and 'u1x' (one name a prefix of the other), neither admin", **_scn_auth)
